@@ -177,11 +177,29 @@ pub fn run(rng: &mut Rng, n: usize) {
             let e0 = rng.range(-2.0 * PI, 2.0 * PI);
             let s1 = if rng.chance(0.3) { s0 + e0 + rng.range(-0.2, 0.2) } else { rng.range(-7.0, 7.0) };
             let e1 = if rng.chance(0.3) { rng.range(-0.3, 0.3) } else { rng.range(-2.0 * PI, 2.0 * PI) };
+            // intervals that TOUCH: one ends exactly (dyadic numbers, no rounding) at the angle where the other starts or
+            // ends; they share that one angle
+            let touching = rng.chance(0.2);
+            let (s0, e0, s1, e1, shared) = if touching {
+                let q = |x: f64| (x * 8.0).round() / 8.0;
+                let (s0, e0) = (q(rng.range(0.25, 3.0)), q(rng.range(0.25, 2.5)));
+                let e1 = q(rng.range(0.125, 2.0));
+                match rng.below(3) {
+                    0 => (s0, e0, s0 - e1, e1, s0),                 // b ends where a starts
+                    1 => (s0, e0, s0 + e0, e1, s0 + e0),            // b starts where a ends
+                    _ => (s0, e0, s0 + e0 + e1, -e1, s0 + e0),      // b, swept backwards, ends where a ends
+                }
+            } else {
+                (s0, e0, s1, e1, 0.0)
+            };
             let a = AngleInterval::new(s0, e0);
             let b = AngleInterval::new(s1, e1);
             let got = a.intersects(&b);
             let mut v = Verdict::new();
             v.require(got == b.intersects(&a), "intersects.symmetric", || format!("{s0:e} {e0:e} {s1:e} {e1:e}"));
+            if touching && a.contains(shared) && b.contains(shared) {
+                v.require(got && b.intersects(&a), "intersects.touching_intervals_share_their_end", || format!("{s0} {e0} and {s1} {e1} both contain {shared}: {got} / {}", b.intersects(&a)));
+            }
             // share an angle  <=>  start of one lies in the other (sets are arcs)
             let d01 = angle_to_2pi(b.start() - a.start());
             let d10 = angle_to_2pi(a.start() - b.start());
